@@ -68,6 +68,27 @@ Theorem C18_folder_rename_qualifier : forall f m idx q,
 Proof. exact f_rename_qualifier. Qed.
 Print Assumptions C18_folder_rename_qualifier.
 
+(** prepareRename announces the identifier the rename then replaces: on a declaration, the first edit; on a
+    variable (either of its identifiers), its last identifier, which is one of the reference edits *)
+Theorem C18_folder_prepare_on_declaration : forall f m idx s e n,
+  decl_ident_span_at (fm_nodes (mod_at f m)) idx = Some (s, e) ->
+  f_find_definition f m idx = Some (n_id n) -> internal f (n_id n) = false ->
+  locate f (n_id n) = Some (m, n) -> s = n_istart n -> e = n_iend n ->
+  exists rest, f_rename f m idx = (m, s, e) :: rest.
+Proof. exact f_prepare_rename_declaration. Qed.
+Print Assumptions C18_folder_prepare_on_declaration.
+
+Theorem C18_folder_prepare_on_variable : forall f m idx v d i n fm,
+  folder_ok f -> nth_error (f_mods f) m = Some fm ->
+  decl_ident_span_at (fm_nodes fm) idx = None -> qual_at (fm_quals fm) idx = None ->
+  In v (fm_uses fm) -> on_ident v idx = true ->
+  (forall x, In x (fm_nodes fm) -> n_decl x = true -> ~ (n_istart x <= idx < n_iend x)%N) ->
+  u_def (v_use v) = Some d -> internal f d = false -> locate f d = Some (i, n) ->
+  f_prepare f m idx = Some (u_istart (v_use v), u_iend (v_use v)) /\
+  In (m, u_istart (v_use v), u_iend (v_use v)) (f_rename f m idx).
+Proof. exact f_prepare_rename_variable. Qed.
+Print Assumptions C18_folder_prepare_on_variable.
+
 (** evaluation: renaming binders, renaming @references *)
 Theorem C18_binder_rename_keeps_document : forall rho : N -> N, (forall x y, rho x = rho y -> x = y) ->
   forall P n rs,
